@@ -44,6 +44,7 @@ type AEADCall struct {
 
 type AEAD struct {
 	KeyID int
+	K     uint64 // key identity when the key material is symbolic (first 8 key bytes)
 }
 
 var (
@@ -154,4 +155,40 @@ func Ed25519Verify(pub ed25519.PublicKey, message, sig []byte) bool {
 
 func ResetModels() {
 	Seals, Opens, Signs, Verifies = nil, nil, nil, nil
+}
+
+
+// ----- key derivation and cipher construction from (symbolic) key material -----
+
+func strID(s string) uint64 {
+	var h uint64 = 1469598103934665603
+	for i := 0; i < len(s); i++ {
+		h = (h ^ uint64(s[i])) * 1099511628211
+	}
+	return h
+}
+
+func first64(b []byte) uint64 { return First64(b) }
+
+// DeriveKey models blake3.DeriveKey: the first 8 bytes of every 32-byte block
+// of output are an uninterpreted function of (context, key material, block);
+// the remaining bytes are zero (only key identity matters to the models).
+func DeriveKey(context string, material []byte, out []byte) {
+	c, m := strID(context), first64(material)
+	for i := range out {
+		out[i] = 0
+	}
+	for blk := 0; blk*32 < len(out); blk++ {
+		if blk*32+8 <= len(out) {
+			Put64(out[blk*32:], UF64("blake3_derive", c, m, uint64(blk)))
+		}
+	}
+}
+
+// NewAEADFromKey models chacha20poly1305.New: the cipher is identified by its key.
+func NewAEADFromKey(key []byte) (cipher.AEAD, error) {
+	if len(key) != 32 {
+		return nil, errors.New("chacha20poly1305: bad key length")
+	}
+	return &AEAD{KeyID: -1, K: first64(key)}, nil
 }
